@@ -282,54 +282,85 @@ func svdSolves(t *vlib.T, name string, svd *mat.SVD, A *M, f famInfo, Um, Vm *M,
 				}
 			}
 			bound := tolForward * float64(max(m, n)) * eps * normF(B) / vals[rank-1]
-			var dst mat.Dense
-			res := svd.SolveTo(&dst, B.dense(), rank)
-			x := fromMat(&dst)
-			if x.r != n || x.c != nrhs {
-				t.Failf("%s.SolveTo rank=%d: result %d×%d", name, rank, x.r, x.c)
-				continue
-			}
-			if d := maxAbs(subM(x, want)); !(d <= bound) {
-				t.Failf("%s.SolveTo rank=%d nrhs=%d: |x-def|=%.3g > %.3g A=%s", name, rank, nrhs, d, bound, fmtM(A))
-			}
-			if len(res) != nrhs {
-				t.Failf("%s.SolveTo: %d residuals for %d columns", name, len(res), nrhs)
-				continue
-			}
-			if fullU {
-				// documented: residuals valid with SVDFullU: |b - A x|² for the rank-truncated A
-				Ak := newM(m, n)
-				for i := 0; i < m; i++ {
-					for j := 0; j < n; j++ {
-						var s float64
-						for l := 0; l < rank; l++ {
-							s += Um.at(i, l) * vals[l] * Vm.at(j, l)
+			for _, brep := range []string{"dense", "user", "trans", "view"} {
+				for _, dk := range []string{"empty", "sized"} {
+					dst := &mat.Dense{}
+					if dk == "sized" {
+						dd := make([]float64, n*nrhs)
+						vlib.FillPoison64(dd)
+						dst = mat.NewDense(n, nrhs, dd)
+					}
+					name := fmt.Sprintf("%s b=%s dst=%s", name, brep, dk)
+					res := svd.SolveTo(dst, repGen(brep, B), rank)
+					x := fromMat(dst)
+					if x.r != n || x.c != nrhs {
+						t.Failf("%s.SolveTo rank=%d: result %d×%d", name, rank, x.r, x.c)
+						continue
+					}
+					if d := maxAbs(subM(x, want)); !(d <= bound) {
+						t.Failf("%s.SolveTo rank=%d nrhs=%d: |x-def|=%.3g > %.3g A=%s", name, rank, nrhs, d, bound, fmtM(A))
+					}
+					if len(res) != nrhs {
+						t.Failf("%s.SolveTo: %d residuals for %d columns", name, len(res), nrhs)
+						continue
+					}
+					if fullU {
+						// documented: residuals valid with SVDFullU: |b - A x|² for the rank-truncated A
+						Ak := newM(m, n)
+						for i := 0; i < m; i++ {
+							for j := 0; j < n; j++ {
+								var s float64
+								for l := 0; l < rank; l++ {
+									s += Um.at(i, l) * vals[l] * Vm.at(j, l)
+								}
+								Ak.set(i, j, s)
+							}
 						}
-						Ak.set(i, j, s)
+						R := subM(mulM(Ak, x), B)
+						for j := 0; j < nrhs; j++ {
+							var s float64
+							for i := 0; i < m; i++ {
+								s += R.at(i, j) * R.at(i, j)
+							}
+							if math.Abs(res[j]-s) > tolForward*float64(max(m, n))*eps*normF(B)*normF(B) {
+								t.Failf("%s.SolveTo rank=%d: residual[%d] = %v, |b-A_k x|² = %v", name, rank, j, res[j], s)
+							}
+						}
+						if rank == rankRef {
+							// at the exact rank of A the truncated matrix is A itself: |b - A x|² with the input matrix
+							R := subM(mulM(A, x), B)
+							for j := 0; j < nrhs; j++ {
+								var s float64
+								for i := 0; i < m; i++ {
+									s += R.at(i, j) * R.at(i, j)
+								}
+								if math.Abs(res[j]-s) > tolForward*float64(max(m, n))*eps*(normF(B)+normF(A)*normF(x))*(normF(B)+normF(A)*normF(x)) {
+									t.Failf("%s.SolveTo rank=%d (= rank of A): residual[%d] = %v, |b-A x|² = %v A=%s", name, rank, j, res[j], s, fmtM(A))
+								}
+							}
+						}
 					}
-				}
-				R := subM(mulM(Ak, x), B)
-				for j := 0; j < nrhs; j++ {
-					var s float64
-					for i := 0; i < m; i++ {
-						s += R.at(i, j) * R.at(i, j)
-					}
-					if math.Abs(res[j]-s) > tolForward*float64(max(m, n))*eps*normF(B)*normF(B) {
-						t.Failf("%s.SolveTo rank=%d: residual[%d] = %v, |b-A_k x|² = %v", name, rank, j, res[j], s)
+					t.Count("solves", 1)
+					if nrhs == 1 {
+						for _, vrep := range vecReps {
+							dv := &mat.VecDense{}
+							if dk == "sized" {
+								dd := make([]float64, n)
+								vlib.FillPoison64(dd)
+								dv = mat.NewVecDense(n, dd)
+							}
+							r1 := svd.SolveVecTo(dv, repVec(vrep, B.col(0)), rank)
+							if d := maxAbs(subM(fromMat(dv), want)); !(d <= bound) {
+								t.Failf("%s.SolveVecTo rank=%d b=%s: |x-def|=%.3g > %.3g", name, rank, vrep, d, bound)
+							}
+							if !relClose(r1, res[0], 1e-9) && math.Abs(r1-res[0]) > 1e-20 {
+								t.Failf("%s.SolveVecTo rank=%d b=%s: residual %v, SolveTo gave %v", name, rank, vrep, r1, res[0])
+							}
+							t.Count("solves", 1)
+						}
 					}
 				}
 			}
-			if nrhs == 1 {
-				var dv mat.VecDense
-				r1 := svd.SolveVecTo(&dv, mat.NewVecDense(m, B.col(0)), rank)
-				if d := maxAbs(subM(fromMat(&dv), want)); !(d <= bound) {
-					t.Failf("%s.SolveVecTo rank=%d: |x-def|=%.3g > %.3g", name, rank, d, bound)
-				}
-				if !relClose(r1, res[0], 1e-9) && math.Abs(r1-res[0]) > 1e-20 {
-					t.Failf("%s.SolveVecTo rank=%d: residual %v, SolveTo gave %v", name, rank, r1, res[0])
-				}
-			}
-			t.Count("solves", 2)
 		}
 	}
 }
